@@ -295,7 +295,7 @@ func init() {
 		add(C("XADD", k0, "MAXLEN", "-1", "*", "f", "v"), C("XADD", k0, "MAXLEN", "x", "*", "f", "v"), C("XADD", k0, "MAXLEN"), C("XADD", k0, "MAXLEN", "1"),
 			C("XADD", k0, "MAXLEN", "~"), C("XADD", k0, "MINID", "a", "*", "f", "v"), C("XADD", k0, "NOMKSTREAM", "MAXLEN", "1", "9-9", "f", "v"),
 			C("XADD", k0, "MAXLEN", "~", "1", "LIMIT", "10", "*", "f", "v"))
-		bounds := []string{"-", "+", "5", "5-1", "5-2", "6", "(5-1", "4", "1700000000000", "(5"}
+		bounds := []string{"-", "+", "5", "5-0", "5-1", "5-2", "6", "(5-1", "4", "1700000000000", "(5"}
 		for _, s := range bounds {
 			for _, e := range bounds {
 				add(C("XRANGE", k0, s, e))
